@@ -4,19 +4,45 @@ import BarterModel.Model.ExecManager
 Line-protocol driver for C07. Ops:
   `init T n [m]`                  manager for exchange 0 with `n` instruments, request timeout `T` and `m`
                                   configured assets (default 0: no asset name is known)
-  `open|cancel ex ins strat cid body delay reply fills eex eins estrat ecid ebody`
+  `open|cancel ex ins strat cid body delay reply fills eex eins estrat ecid ebody [oid tex]`
                                   request (key, body) + the scripted client's behaviour:
+                                  `body`  = code of the request's state. Opens: the static fields
+                                            `base = body % 6` → side (even Buy / odd Sell), price `base`,
+                                            quantity `base + 1`; `(body / 6) % 2` → Limit / Market;
+                                            `(body / 12) % 5` → GTC / GTC post-only / GoodUntilEndOfDay /
+                                            FillOrKill / ImmediateOrCancel (`body < 60`; codes 0..5 are the
+                                            Limit / GTC orders of the first corpus). Cancels: the
+                                            `RequestCancel { id }`: 0 = `None`, k+1 = `Some("o<k>")`.
                                   `delay` = `never` | ticks, `reply` = `ok` | `rej` | `inv<i>` |
                                   `conn_timeout` | `conn_offline` | `conn_socket` (Connectivity error as the
                                   client's answer) | `ainv<a>` | `bal<a>` (AssetInvalid / BalanceInsufficient
                                   naming asset `a`) | `rate` | `acx` | `aff` (RateLimit, OrderAlreadyCancelled,
                                   OrderAlreadyFullyFilled),
-                                  `fills` = 0|1, echoed key / body
+                                  `fills` = filled quantity of an accepted open, as a code relative to the
+                                  quantity of the ECHOED order: 0 nothing, 1 all of it, 2 half of it (a partial
+                                  fill), 3 quantity + 1 (over-fill); 0 for cancels,
+                                  echoed key / echoed body (static fields the client puts into its answer),
+                                  `oid tex` (optional, default `0 0`: the first corpus) = payload of the answer:
+                                  order id `o<oid>`, exchange time `tex` ms; the text inside an error is
+                                  `m<oid>`, the exchange inside `ExchangeOffline` is exchange id `oid % 4`.
+  `open+|cancel+ …`               the same, sent without yielding (a burst: the manager sees it only at the
+                                  next op that is not part of a burst)
   `adv dt`                        time advances, every timer fires in order (prompt polls)
   `jump dt`                       the clock jumps, then everything ready is polled once (late poll)
   `shutdown`
-Observations per op: `nev k`, then `at …` (who the event is attributed to) and `ev …` (attribution,
-body, outcome) for the events sent on the response channel during the op (sorted), then `status`.
+Observations per op:
+  `fwd <kind> x<exchange id> ins<name> <strat> <cid> <state>`   one per request the manager handed to the client
+        during the op, in intake order (`<state>` = `B|S:price:qty:L|M:tif` / `id:-` / `id:o<k>`),
+  `nev k`, then for the events sent on the response channel during the op (each family sorted)
+  `at <kind> <event exchange> <key exchange> <ins> <strat> <cid>`                 who the event is attributed to,
+  `ev <kind> <event exchange> <key exchange> <ins> <strat> <cid> <fields> <outcome>`   attribution, static
+        fields (`-` for cancels), outcome WITH the payload the event carries (`ok:o<id>:<t>:<filled>`, `full`,
+        `ok:o<id>:<t>` for cancels, `rej:m<k>`, `inv<i>:m<k>`, `ainv<a>:m<k>`, `bal<a>:m<k>`, `socket:m<k>`,
+        `offline:x<e>`, `timeout`, `rate`, `acx`, `aff`),
+  `for:<kind>:<key exchange>:<ins>:<strat>:<cid> <event exchange> <fields> <outcome>`   the same events keyed by
+        the identity they are attributed to (so that the spec can constrain one identity and stay silent on
+        another),
+  then `status`.
 -/
 namespace BarterModel.Driver.C07
 open BarterModel.Driver BarterModel.ExecManager
@@ -39,21 +65,71 @@ def outcomeStr : Outcome → String
   | .nameless .orderAlreadyCancelled => "acx"
   | .nameless .orderAlreadyFullyFilled => "aff"
 
+def detailStr : Detail → String
+  | .none => ""
+  | .opened id t f => s!":o{id}:{t}:{fmtRat f}"
+  | .cancelled id t => s!":o{id}:{t}"
+  | .message m => s!":m{m}"
+  | .offlineAt x => s!":x{x}"
+
 def statusStr : Status → String
   | .running => "running"
   | .stopped => "stopped"
   | .panicked => "panic"
 
+/-! ### the `body` code (shared with `harness/src/bin/c07.rs` `body_fields`) -/
+
+def bodyBase (b : Nat) : Nat := b % 6
+/-- quantity of the order with static-field code `b` -/
+def bodyQty (b : Nat) : Rat := ((bodyBase b + 1 : Nat) : Rat)
+
+def openFields (b : Nat) : String :=
+  let base := bodyBase b
+  let side := if base % 2 == 0 then "B" else "S"
+  let kind := if (b / 6) % 2 == 0 then "L" else "M"
+  let tif := match (b / 12) % 5 with
+    | 0 => "G0" | 1 => "G1" | 2 => "D" | 3 => "F" | _ => "I"
+  s!"{side}:{base}:{base + 1}:{kind}:{tif}"
+
+def cancelId (b : Nat) : String := if b == 0 then "id:-" else s!"id:o{b - 1}"
+
+def fieldsTok (k : Kind) (body : Nat) : String :=
+  match k with
+  | .open => openFields body
+  | .cancel => "-"
+
+def fwdLine (f : Forwarded) : String :=
+  let st := match f.kind with
+    | .open => openFields f.body
+    | .cancel => cancelId f.body
+  s!"fwd {kindStr f.kind} x{f.exchange} ins{f.instrument} {f.strategy} {f.cid} {st}"
+
+/-- an event together with the payload it carries -/
+abbrev EvD := Event × Detail
+
+def identStr (e : Event) : String :=
+  s!"{kindStr e.kind}:{e.key.exchange}:{e.key.instrument}:{e.key.strategy}:{e.key.cid}"
+
 def atLine (e : Event) : String :=
   s!"at {kindStr e.kind} {e.exchange} {e.key.exchange} {e.key.instrument} {e.key.strategy} {e.key.cid}"
 
-def evLine (e : Event) : String :=
-  s!"ev {kindStr e.kind} {e.exchange} {e.key.exchange} {e.key.instrument} {e.key.strategy} {e.key.cid} {e.body} {outcomeStr e.outcome}"
+/-- `<fields> <outcome>` -/
+def tailToks (x : EvD) : List String :=
+  [fieldsTok x.1.kind x.1.body, outcomeStr x.1.outcome ++ detailStr x.2]
+
+def evPrefix (e : Event) : String :=
+  s!"ev {kindStr e.kind} {e.exchange} {e.key.exchange} {e.key.instrument} {e.key.strategy} {e.key.cid}"
+
+def evLine (x : EvD) : String := " ".intercalate (evPrefix x.1 :: tailToks x)
+
+def forLine (x : EvD) : String :=
+  " ".intercalate ([s!"for:{identStr x.1}", toString x.1.exchange] ++ tailToks x)
 
 def sortStrs (l : List String) : List String := l.mergeSort (fun a b => decide (a ≤ b))
 
-def obsEvents (evs : List Event) (withFate : Bool) : List String :=
-  [s!"nev {evs.length}"] ++ sortStrs (evs.map atLine) ++ (if withFate then sortStrs (evs.map evLine) else [])
+def obsEvents (evs : List EvD) : List String :=
+  [s!"nev {evs.length}"] ++ sortStrs (evs.map fun x => atLine x.1) ++ sortStrs (evs.map evLine) ++
+    sortStrs (evs.map forLine)
 
 def parseReply (s : String) : Option Reply :=
   if s == "ok" then some .ok
@@ -72,31 +148,51 @@ def parseReply (s : String) : Option Reply :=
 def parseDelay (s : String) : Option (Option Nat) :=
   if s == "never" then some none else s.toNat?.map some
 
-def parseBool (s : String) : Option Bool :=
-  if s == "0" then some false else if s == "1" then some true else none
+/-- `fills` code → filled quantity, given the quantity of the echoed order -/
+def parseFills (s : String) (q : Rat) : Option Rat :=
+  if s == "0" then some 0 else if s == "1" then some q else if s == "2" then some (q / 2)
+  else if s == "3" then some (q + 1) else none
 
-def parseReq (kind : Kind) : List String → Option ReqSpec
-  | [ex, ins, strat, cid, body, delay, reply, fills, eex, eins, estrat, ecid, ebody] =>
+/-- a request and the payload of the scripted client's answer to it -/
+structure PReq where
+  q : ReqSpec
+  p : Payload
+
+def parseReq (kind : Kind) (toks : List String) : Option PReq :=
+  let go (ex ins strat cid body delay reply fills eex eins estrat ecid ebody oid tex : String) : Option PReq :=
     match ex.toNat?, ins.toNat?, strat.toNat?, cid.toNat?, body.toNat? with
     | some ex, some ins, some strat, some cid, some body =>
-      match parseDelay delay, parseReply reply, parseBool fills with
-      | some delay, some reply, some fills =>
+      match parseDelay delay, parseReply reply, oid.toNat?, tex.toNat? with
+      | some delay, some reply, some oid, some tex =>
         match eex.toNat?, eins.toNat?, estrat.toNat?, ecid.toNat?, ebody.toNat? with
         | some eex, some eins, some estrat, some ecid, some ebody =>
-          -- cancels carry no static order fields
-          if kind == .cancel && (body != 0 || ebody != 0 || fills) then none
-          else some ⟨kind, ⟨ex, ins, strat, cid⟩, body, ⟨delay, reply, fills, ⟨eex, eins, estrat, ecid⟩, ebody⟩⟩
+          match parseFills fills (bodyQty ebody) with
+          | none => none
+          | some filled =>
+            -- cancels carry no static order fields and report no fill
+            if kind == .cancel && (ebody != 0 || fills != "0") then none
+            else if kind == .open && (body ≥ 60 || ebody ≥ 60) then none
+            else
+              -- `fills` of the model: nothing is left to fill of the ECHOED order (manager.rs:381)
+              let nothing := kind == .open && nothingLeft (bodyQty ebody) filled
+              some ⟨⟨kind, ⟨ex, ins, strat, cid⟩, body, ⟨delay, reply, nothing, ⟨eex, eins, estrat, ecid⟩, ebody⟩⟩,
+                    ⟨oid, tex, filled, oid % 4⟩⟩
         | _, _, _, _, _ => none
-      | _, _, _ => none
+      | _, _, _, _ => none
     | _, _, _, _, _ => none
+  match toks with
+  | [ex, ins, strat, cid, body, delay, reply, fills, eex, eins, estrat, ecid, ebody] =>
+    go ex ins strat cid body delay reply fills eex eins estrat ecid ebody "0" "0"
+  | [ex, ins, strat, cid, body, delay, reply, fills, eex, eins, estrat, ecid, ebody, oid, tex] =>
+    go ex ins strat cid body delay reply fills eex eins estrat ecid ebody oid tex
   | _ => none
 
 inductive Op
   | init (t n m : Nat)
-  | req (q : ReqSpec)
+  | req (q : PReq)
   /-- the request is put on the manager's request channel and the sender does NOT yield: the manager
   sees it only together with whatever the following ops send (a burst within one wake-up) -/
-  | reqBurst (q : ReqSpec)
+  | reqBurst (q : PReq)
   | adv (dt : Nat)
   | jump (dt : Nat)
   | shutdown
@@ -124,41 +220,74 @@ def parseOp : List String → Option Op
 structure MSt where
   cfg : Cfg
   s : State
+  /-- payload of the client's answer to the accepted request with intake number `rid` -/
+  payloads : List Payload
+  /-- `fwd` lines of a burst: the client is called when the manager runs, i.e. during the next op that
+  is not part of the burst -/
+  deferred : List String
 
-def mObs (old : State) (s : State) : List String :=
-  obsEvents (s.out.drop old.out.length) true ++ [s!"status {statusStr s.status}"]
+/-- the events sent during the op with their payloads: `out` grows by the events of the new
+resolutions (`Inv.out`, Lemmas/ExecManager.lean) -/
+def newEvents (cfg : Cfg) (payloads : List Payload) (old s : State) : List EvD :=
+  (s.resolved.drop old.resolved.length).filterMap fun x =>
+    (eventOf cfg x.req x.fate).map fun e => (e, detailOf x.req.spec (payloads.getD x.req.rid {}) x.fate)
+
+def mObs (m : MSt) (fwd : List String) (s : State) : List String :=
+  let evs := newEvents m.cfg m.payloads m.s s
+  fwd ++ (if evs.map (·.1) == s.out.drop m.s.out.length then obsEvents evs else ["model-inconsistent"]) ++
+    [s!"status {statusStr s.status}"]
+
+/-- intake of one request: the state after it, the payload table, the `fwd` line (if the client is called) -/
+def mIntake (m : MSt) (q : PReq) : State × List Payload × List String :=
+  let s1 := run m.cfg m.s [.intake q.q]
+  let payloads := if s1.accepted.length > m.s.accepted.length then m.payloads ++ [q.p] else m.payloads
+  (s1, payloads, (forwarded m.cfg m.s (.intake q.q)).map fwdLine)
 
 def model : Drv MSt where
-  init := ⟨⟨0, 0, 0, 0⟩, init⟩
+  init := ⟨⟨0, 0, 0, 0⟩, init, [], []⟩
   step m toks :=
     match parseOp toks with
     | none => (m, ["bad-op"])
     | some (.init t n na) =>
-      let m' : MSt := ⟨⟨0, n, t, na⟩, init⟩
-      (m', mObs m'.s m'.s)
+      let m' : MSt := ⟨⟨0, n, t, na⟩, init, [], []⟩
+      (m', mObs m' [] m'.s)
     | some (.req q) =>
-      let s1 := run m.cfg m.s [.intake q]
+      let (s1, payloads, fwd) := mIntake m q
+      let m1 : MSt := { m with payloads := payloads }
       let s2 := run m.cfg s1 (settleSched m.cfg s1)
-      (⟨m.cfg, s2⟩, mObs m.s s2)
+      (⟨m.cfg, s2, payloads, []⟩, mObs m1 (m.deferred ++ fwd) s2)
     | some (.reqBurst q) =>
       -- intake order = send order (one FIFO request channel); nothing is polled before the burst ends
-      let s1 := run m.cfg m.s [.intake q]
-      (⟨m.cfg, s1⟩, mObs m.s s1)
+      let (s1, payloads, fwd) := mIntake m q
+      (⟨m.cfg, s1, payloads, m.deferred ++ fwd⟩, mObs { m with payloads := payloads } [] s1)
     | some (.adv dt) =>
       let s1 := run m.cfg m.s (promptSched m.cfg m.s dt)
-      (⟨m.cfg, s1⟩, mObs m.s s1)
+      ({ m with s := s1, deferred := [] }, mObs m m.deferred s1)
     | some (.jump dt) =>
       let s1 := run m.cfg m.s (lateSched m.cfg m.s dt)
-      (⟨m.cfg, s1⟩, mObs m.s s1)
+      ({ m with s := s1, deferred := [] }, mObs m m.deferred s1)
     | some .shutdown =>
       let s1 := run m.cfg m.s [.shutdown]
-      (⟨m.cfg, s1⟩, mObs m.s s1)
+      ({ m with s := s1, deferred := [] }, mObs m m.deferred s1)
 
-/-! ### abstract spec: a function of the history of accepted requests -/
+/-! ### abstract spec: a function of the history of accepted requests
+
+The spec states, per op, what the property demands of the requests whose answer is due in that op.
+It is silent exactly where the text says nothing:
+* after `shutdown` ("while running") and after a request for a key the manager is not configured with;
+* about the ONE event of a request whose client does not echo it (hypothesis `EchoesKey`) AND whose
+  answer is actually used (it arrives within the timeout, or a late poll may have let it win): the code
+  then emits no event or one attributed to the echoed key, so the identity the answer is attributed to
+  is not constrained in that op and the event count is constrained to a range. Every other request due
+  in the same op is constrained (`for:` lines). A non-echoing client that never answers in time is a plain
+  manager timeout and fully constrained;
+* about WHICH of the two events (response / timeout failure) a request yields whose response arrived
+  after the timeout but before anybody looked (`jump`: late poll): both are admitted, as alternatives. -/
 
 structure SReq where
   t0 : Nat
   q : ReqSpec
+  p : Payload
   answered : Bool
 
 structure SSt where
@@ -168,6 +297,8 @@ structure SSt where
   /-- a request for a key the manager is not configured with was sent: nothing is claimed afterwards -/
   broken : Bool
   reqs : List SReq
+  /-- `fwd` lines of a burst, stated at the next op that lets the manager run -/
+  deferred : List String
 
 /-- requests whose answer is due by `t` -/
 def sDue (T : Nat) (t : Nat) (r : SReq) : Bool :=
@@ -179,32 +310,97 @@ def sAmbiguous (T : Nat) (t : Nat) (r : SReq) : Bool :=
   | some d => decide (T < d) && decide (r.t0 + d ≤ t)
   | none => false
 
+/-- the client's answer does not echo the request AND is (or may be) the one that is used -/
+def sTainted (cfg : Cfg) (t : Nat) (late : Bool) (r : SReq) : Bool :=
+  !echoes cfg r.q && (specFate cfg.timeout r.q == .response || (late && sAmbiguous cfg.timeout t r))
+
+/-- the events the property admits for a (non-tainted) request due in this op -/
+def sAlternatives (cfg : Cfg) (t : Nat) (late : Bool) (r : SReq) : List EvD :=
+  let one (f : Fate) : EvD := (specEvent r.q f, specDetail r.q r.p f)
+  if late && sAmbiguous cfg.timeout t r then [one .timeout, one .response]
+  else [one (specFate cfg.timeout r.q)]
+
+/-- all ways of picking one alternative per request -/
+def arrangements : List (List EvD) → List (List EvD)
+  | [] => [[]]
+  | alts :: rest => (arrangements rest).flatMap fun tl => alts.map fun a => a :: tl
+
+def dedupS (l : List String) : List String :=
+  l.foldl (fun acc x => if acc.contains x then acc else acc ++ [x]) []
+
+def altTok (l : List String) : String :=
+  match dedupS l with
+  | [one] => one
+  | many => "{" ++ "|".intercalate many ++ "}"
+
+/-- One identity group (requests due in this op whose events carry the same kind and key): the sorted
+`<fields> <outcome>` tails, position by position; a position at which the admissible arrangements
+differ becomes a `{a|b}` token. `none`: too many late-poll alternatives to enumerate. -/
+def groupTails (alts : List (List EvD)) : Option (List (List String)) :=
+  if (alts.filter fun a => a.length > 1).length > 4 then none else
+  let arrs := (arrangements alts).map fun arr => sortStrs (arr.map fun x => " ".intercalate (tailToks x))
+  let n := alts.length
+  some ((List.range n).map fun j =>
+    let lines := arrs.map fun a => ((a.getD j "").splitOn " ")
+    (List.range 2).map fun k => altTok (lines.map fun l => l.getD k ""))
+
+structure Group where
+  /-- the event every member's alternatives share up to body / outcome -/
+  rep : Event
+  tails : Option (List (List String))
+
+def groupsOf (cfg : Cfg) (t : Nat) (late : Bool) (clean : List SReq) : List Group :=
+  let idents := dedupS (clean.map fun r => evPrefix (specTimeoutEvent r.q))
+  (sortStrs (idents.map fun s => s ++ " ")).filterMap fun pfx =>
+    let members := clean.filter fun r => evPrefix (specTimeoutEvent r.q) ++ " " == pfx
+    match members with
+    | [] => none
+    | r :: _ => some ⟨specTimeoutEvent r.q, groupTails (members.map (sAlternatives cfg t late))⟩
+
+def rangeTok (lo hi : Nat) : String :=
+  if lo == hi then toString lo else "{" ++ "|".intercalate ((List.range (hi - lo + 1)).map fun k => toString (lo + k)) ++ "}"
+
 def sEmit (s : SSt) (t : Nat) (late : Bool) : SSt × List String :=
   let T := s.cfg.timeout
   let due := s.reqs.filter (sDue T t)
   let reqs := s.reqs.map fun r => if sDue T t r then { r with answered := true } else r
-  let s' := { s with now := t, reqs := reqs }
-  if due.any (fun r => !echoes s.cfg r.q) then (s', [])
-  else
-    let evs := due.map fun r => specEvent r.q (specFate T r.q)
-    let fateKnown := !(late && due.any (sAmbiguous T t))
-    (s', obsEvents evs fateKnown)
+  let s' := { s with now := t, reqs := reqs, deferred := [] }
+  let tainted := due.filter (sTainted s.cfg t late)
+  let clean := due.filter fun r => !sTainted s.cfg t late r
+  -- identities a non-echoing answer may be attributed to: nothing is claimed about them in this op
+  let silenced := tainted.map fun r => s!"{kindStr r.q.kind}:{r.q.script.echo.exchange}:{r.q.script.echo.instrument}:{r.q.script.echo.strategy}:{r.q.script.echo.cid}"
+  let groups := groupsOf s.cfg t late clean
+  let forLines := (groups.filter fun g => !silenced.contains (identStr g.rep)).flatMap fun g =>
+    match g.tails with
+    | none => []
+    | some tails => tails.map fun tl => " ".intercalate ([s!"for:{identStr g.rep}", toString g.rep.exchange] ++ tl)
+  let lines :=
+    if tainted.isEmpty then
+      [s!"nev {due.length}"] ++ sortStrs (clean.map fun r => atLine (specTimeoutEvent r.q)) ++
+      (if groups.all (·.tails.isSome) then
+        groups.flatMap fun g => (g.tails.getD []).map fun tl => " ".intercalate (evPrefix g.rep :: tl)
+       else [])
+    else [s!"nev {rangeTok clean.length due.length}"]
+  (s', s.deferred ++ lines ++ forLines)
+
+def sFwd (s : SSt) (q : PReq) : String := fwdLine (specForward s.cfg q.q)
 
 def spec : Drv SSt where
-  init := ⟨⟨0, 0, 0, 0⟩, 0, false, true, []⟩
+  init := ⟨⟨0, 0, 0, 0⟩, 0, false, true, [], []⟩
   step s toks :=
     match parseOp toks with
     | none => (s, ["bad-op"])
-    | some (.init t n na) => (⟨⟨0, n, t, na⟩, 0, true, false, []⟩, ["nev 0"])
+    | some (.init t n na) => (⟨⟨0, n, t, na⟩, 0, true, false, [], []⟩, ["nev 0"])
     | some (.req q) =>
       if !s.running || s.broken then (s, [])
-      else if !s.cfg.configured q.key then ({ s with broken := true }, [])
-      else sEmit { s with reqs := s.reqs ++ [⟨s.now, q, false⟩] } s.now false
+      else if !s.cfg.configured q.q.key then ({ s with broken := true }, [])
+      else sEmit { s with reqs := s.reqs ++ [⟨s.now, q.q, q.p, false⟩], deferred := s.deferred ++ [sFwd s q] } s.now false
     | some (.reqBurst q) =>
-      -- registered at the current instant; what is due is stated at the next op that lets the manager run
+      -- registered at the current instant; what is due (and what the client was asked) is stated at the
+      -- next op that lets the manager run; nothing can arrive while the manager does not run
       if !s.running || s.broken then (s, [])
-      else if !s.cfg.configured q.key then ({ s with broken := true }, [])
-      else ({ s with reqs := s.reqs ++ [⟨s.now, q, false⟩] }, [])
+      else if !s.cfg.configured q.q.key then ({ s with broken := true }, [])
+      else ({ s with reqs := s.reqs ++ [⟨s.now, q.q, q.p, false⟩], deferred := s.deferred ++ [sFwd s q] }, ["nev 0"])
     | some (.adv dt) =>
       if !s.running || s.broken then (s, []) else sEmit s (s.now + dt) false
     | some (.jump dt) =>
